@@ -23,7 +23,8 @@
 //! with nb_chunks and a non-dividing chunk size), ff.decomp.known (known
 //! finding, own sub-check: the enforce_canonical = false path; signatures
 //! `field_chip.enforce_canonical=false:incomplete:{to_le_bits:limb0-carry,
-//! to_le_bits:unnormalised-input, to_le_chunks:limb0-carry}`),
+//! to_le_bits:unnormalised-input, to_le_bits:zero-with-bit-bound,
+//! to_le_chunks:limb0-carry, to_le_chunks:zero-with-bit-bound}`),
 //! big.ops.{complete,s2}, big.unsat, big.mod_exp.f20 and big.assign.f21
 //! (regressions of F20 / F21).
 //!
@@ -249,7 +250,7 @@ fn main() {
                 let en = &cat[c.op as usize % cat.len()];
                 let md = model_of(c.field);
                 let (x, boundary, labels) = inputs_for(&md, &en.prog, en.in_bits, &c.cls, c.seed);
-                if en.ecf && x.iter().take(en.prog.n_field).any(|v| ecf_known_input(&md, v)) {
+                if en.ecf && x.iter().take(en.prog.n_field).any(|v| ecf_known_input(&md, v, en.in_bits.is_some())) {
                     return Ok(Verdict::trivial("excluded-known:enforce_canonical=false"));
                 }
                 let r = with_field!(c.field, complete(&en.prog, &x, c.seed));
@@ -273,7 +274,7 @@ fn main() {
                 let en = &cat[c.op as usize % cat.len()];
                 let md = model_of(c.field);
                 let (x, boundary, labels) = inputs_for(&md, &en.prog, en.in_bits, &c.cls, c.seed);
-                if en.ecf && x.iter().take(en.prog.n_field).any(|v| ecf_known_input(&md, v)) {
+                if en.ecf && x.iter().take(en.prog.n_field).any(|v| ecf_known_input(&md, v, en.in_bits.is_some())) {
                     return Ok(Verdict::trivial("excluded-known:enforce_canonical=false"));
                 }
                 let exhaustive = !p.quick() && en.heavy;
@@ -563,7 +564,7 @@ fn main() {
                     3 => (Prog::term1(Term::ToChunks(0, 5, Some(3))), vec![(&val % (BigUint::one() << 40)) + (BigUint::one() << 15)], "to_le_chunks(5 bits, Some(3), x >= 2^15)", 2),
                     _ => (Prog::term1(Term::ToChunks(0, 5, None)), vec![val.clone()], "to_le_chunks(5 bits, None)", 1),
                 };
-                if how == 1 && ecf_known_input(&md, &x[0]) {
+                if how == 1 && ecf_known_input(&md, &x[0], k == 2) {
                     return Ok(Verdict::trivial("excluded-known:enforce_canonical=false"));
                 }
                 fn rb<Fd: EmField>(prog: &Prog, x: &[BigUint], how: u8) -> CaseResult {
@@ -598,7 +599,7 @@ fn main() {
         // All signatures share the prefix `field_chip.enforce_canonical=false:incomplete:`.
         let mut items: Vec<(u8, u8, u8)> = vec![];
         for f in 0..5u8 {
-            for k in 0..3u8 {
+            for k in 0..5u8 {
                 for v in 0..4u8 {
                     items.push((f, k, v));
                 }
@@ -621,20 +622,24 @@ fn main() {
                     _ => (&md.m - BigUint::one()) >> 1,
                 };
                 let lazy = Prog { n_field: 1, n_bits: 0, n_bytes: 0, steps: vec![Step::Add(0, 0)], term: Term::ToBits(1, None, false) };
+                // with a bit bound, zero (stored as m-1, decomposed as m) is affected as well
+                let val = if k >= 3 { if v == 0 { BigUint::from(5u8) } else { BigUint::zero() } } else { val };
                 let (prog, label, why): (Prog, &'static str, &'static str) = match k {
                     0 => (Prog::term1(Term::ToBits(0, None, false)), "to_le_bits(enforce_canonical=false)", "to_le_bits:limb0-carry"),
                     1 => (lazy, "to_le_bits(lazy x+x, enforce_canonical=false)", "to_le_bits:unnormalised-input"),
-                    _ => (Prog::term1(Term::ToChunks(0, 5, None)), "to_le_chunks(5 bits, None)", "to_le_chunks:limb0-carry"),
+                    2 => (Prog::term1(Term::ToChunks(0, 5, None)), "to_le_chunks(5 bits, None)", "to_le_chunks:limb0-carry"),
+                    3 => (Prog::term1(Term::ToChunks(0, 5, Some(3))), "to_le_chunks(5 bits, Some(3))", "to_le_chunks:zero-with-bit-bound"),
+                    _ => (Prog::term1(Term::ToBits(0, Some(9), false)), "to_le_bits(Some(9), enforce_canonical=false)", "to_le_bits:zero-with-bit-bound"),
                 };
                 fn rb<Fd: EmField>(prog: &Prog, x: &[BigUint]) -> CaseResult {
                     xcheck_complete_readback(&FOp::<Fd>::new(prog.clone()), x)
                 }
                 let r = with_field!(f, rb(&prog, &[val.clone()]));
-                let nt = v == 1 || v == 2 || k == 1;
+                let nt = v == 1 || v == 2 || k == 1 || (k >= 3 && v >= 1);
                 match r {
                     Ok(_) => Ok(Verdict::of(nt, format!("{}:{}", field_name(f), label))),
                     Err(fl) => {
-                        let expected = (k != 1 && (v == 1 || v == 2)) || (k == 1 && v >= 1);
+                        let expected = ((k == 0 || k == 2) && (v == 1 || v == 2)) || (k == 1 && v >= 1) || (k >= 3 && v >= 1);
                         let sig = if fl.signature.contains(":incomplete:reject") && expected { format!("field_chip.enforce_canonical=false:incomplete:{why}") } else { fl.signature.clone() };
                         Err(Failure::new(sig, format!("[{} {}] {}", field_name(f), label, fl.detail.chars().take(600).collect::<String>())))
                     }
